@@ -663,7 +663,7 @@ impl Engine for ThEngine {
         "C17"
     }
     fn budget(&self) -> (u64, u64) {
-        (40_000, 300)
+        (80_000, 300)
     }
 
     fn generate(&self, seed: u64, tier: Tier) -> Case<ThCfg, ThOp> {
